@@ -37,15 +37,17 @@ class BloomSystem(System):
 
     def configs(self, prop, tier, seed):
         cfgs = []
-        ns = range(1, 13) if tier == "quick" else list(range(1, 25)) + [31, 40]
+        ns = range(1, 13) if tier == "quick" else list(range(1, 17)) + [24, 31, 40]
         rates = RATES if tier == "quick" else RATES_THOROUGH
         strats = STRATS
-        depth = 5 if tier == "quick" else 7
+        depth = 5 if tier == "quick" else 6
         if prop in ("C05", "C19") and tier == "quick":
             ns = (1, 2, 3, 5, 8, 12)
             depth = 3
         if prop == "C06":
-            depth = 4 if tier == "quick" else 6
+            depth = 3 if tier == "quick" else 5
+        if prop in ("C05", "C19", "C14") and tier == "thorough":
+            depth = 5
         if prop == "C14" and tier == "quick":
             depth = 4
         seen = set()
